@@ -168,7 +168,7 @@ if path[-1] == "entries" and jclass(hole) == "number" and not isinstance(hole, s
     )
 
 
-ADDED = ["x", "name", "entries", "data", "type", "sub:type", "0", "w", "zz"]
+ADDED = ["x", "name", "entries", "data", "type", "sub:type", "0", "w", "zz", "7.0", "1e3", " 5", "-0"]
 
 
 def keys(name, expr, dicts, delpaths, timeout=90):
